@@ -182,8 +182,8 @@ def expected_ops(prog):
             c = emit('Id', [{'n': nid[0]}])
             a = var2node[st['a']]
             var2node[nv] = emit('dot', [{'n': a}, {'n': c}] if st['side'] == 'r' else [{'n': c}, {'n': a}])
-        elif op == 'zeros':
-            var2node[nv] = emit('zeros', [{'c': 0}, {'n': var2node[st['like']]}, {'c': 0}])
+        elif op in ('zeros', 'ones'):
+            var2node[nv] = emit(op, [{'c': 0}, {'n': var2node[st['like']]}, {'c': 0}])
         elif op == 'setitem':
             emit('setitem', [{'n': var2node[st['buf']]}, {'c': 0}, {'n': var2node[st['val']]}])
             continue
